@@ -18,6 +18,7 @@ import (
 
 	ds "github.com/ipfs/go-datastore"
 	dssync "github.com/ipfs/go-datastore/sync"
+	"github.com/decred/dcrd/dcrec/secp256k1/v4"
 	"github.com/libp2p/go-libp2p/core/crypto"
 	cpb "github.com/libp2p/go-libp2p/core/crypto/pb"
 	"github.com/libp2p/go-libp2p/core/peer"
@@ -818,6 +819,15 @@ func c08Envelope(t *testing.T, out *verifh.Out, r *verifh.Rand, c *envCtx, mode 
 	at(remarshal(func(e *rpb.Envelope) { e.PublicKey = nil }), dom, "key_dropped")
 	// foreign key, original signature
 	fpk, _ := crypto.PublicKeyToProto(foreign.pk)
+	// content edits combined with a dropped / degenerate signature: a verifier that skips
+	// the check for one class of signatures must not go unnoticed
+	for _, sg := range [][]byte{nil, {0}, rbytes(r, len(sig)), sig[:len(sig)/2]} {
+		sg := sg
+		at(remarshal(func(e *rpb.Envelope) { e.Payload = cat(pl, []byte{1}); e.Signature = sg }), dom, "payload_changed_signature_degenerate")
+		at(remarshal(func(e *rpb.Envelope) { e.PayloadType = cat(pt, []byte{1}); e.Signature = sg }), dom, "type_changed_signature_degenerate")
+		at(remarshal(func(e *rpb.Envelope) { e.PublicKey = fpk; e.Signature = sg }), dom, "key_swapped_signature_degenerate")
+		at(remarshal(func(e *rpb.Envelope) { e.Signature = sg }), dom+"x", "domain_changed_signature_degenerate")
+	}
 	at(remarshal(func(e *rpb.Envelope) { e.PublicKey = fpk }), dom, "key_swapped_foreign")
 	// key of another type carrying the same data
 	at(remarshal(func(e *rpb.Envelope) {
@@ -884,6 +894,14 @@ func c08Envelope(t *testing.T, out *verifh.Out, r *verifh.Rand, c *envCtx, mode 
 	at(cat(emb(signer.canon), emb(foreign.canon), f2, f3, f5), dom, "wire_key_own_then_foreign")
 	at(cat(emb(cat(tagT, protowire.AppendVarint(nil, uint64(signer.kt)+1<<32), tagD, dat)), f2, f3, f5), dom, "wire_key_type_plus_2^32")
 	at(cat(emb(cat(tagD, dat, tagT, typ)), f2, f3, f5), dom, "wire_key_fields_reordered")
+	if signer.kt == 2 {
+		// the same secp256k1 key in its uncompressed encoding: another serialisation of the
+		// same signer, accepted, and reported as the same (canonical) signer
+		if pk, err := secp256k1.ParsePubKey(signer.raw); err == nil {
+			unc := protowire.AppendBytes(nil, pk.SerializeUncompressed())
+			at(cat(emb(cat(tagT, typ, tagD, unc)), f2, f3, f5), dom, "wire_key_same_key_uncompressed_encoding")
+		}
+	}
 	at(cat(emb(cat(tagT, typ, tagD, dat, []byte{0x0f})), f2, f3, f5), dom, "wire_key_bad_inner_tag")
 	at(cat(emb(nil), f2, f3, f5), dom, "wire_key_empty_message")
 	at(cat([]byte{0x8a, 0x00}, protowire.AppendBytes(nil, signer.canon), f2, f3, f5), dom, "wire_tag_nonminimal")
@@ -953,7 +971,10 @@ func TestVerifC08(t *testing.T) {
 	defer dsb.Close()
 
 	types := []int{crypto.Ed25519, crypto.Secp256k1, crypto.ECDSA, crypto.RSA}
-	rounds := 2 * scale
+	rounds := 2
+	if thorough {
+		rounds = 6
+	}
 	for round := 0; round < rounds; round++ {
 		// fresh keys of every type each round (RSA only every other round in the quick tier: keygen cost)
 		var ks []*keyInfo
@@ -963,8 +984,11 @@ func TestVerifC08(t *testing.T) {
 		for i, k := range ks {
 			isRSA := k.kt == 0
 			every := 1
-			if isRSA && !thorough {
-				every = 7 // RSA envelopes are ~600 bytes: sample the interior positions in the quick tier
+			if isRSA {
+				every = 7 // RSA envelopes are ~600 bytes: sample the interior positions (1/7 quick, 1/2 thorough)
+				if thorough {
+					every = 2
+				}
 			}
 			c08KeyCase(t, out, k)
 			others := []*keyInfo{ks[(i+1)%4], ks[(i+2)%4], mkKey(t, types[i])}
